@@ -52,7 +52,7 @@ pub fn gen_world(seed: u64, idx: u64, s: &dyn SuiteOps) -> World {
     }
     let ctx = if g.chance(1, 2) { Some(b"app".to_vec()) } else { None };
     let mut threads = vec![];
-    for (setup, n) in [(s_real, 2), (s_thief, 2), (s_other, 1)] {
+    for (setup, n) in [(s_real, 2), (s_thief, 5), (s_other, 1)] {
         for _ in 0..n {
             // the thief spells identities as the real server would (its own key as default is the point)
             let which = if explicit || g.chance(1, 2) { s_real } else { setup };
@@ -75,7 +75,7 @@ pub fn run(ctx: &Ctx) -> Report {
     );
     let mut suites: Vec<&'static dyn SuiteOps> = SIM_SUITES.to_vec();
     suites.extend(ID_SUITES.iter().step_by(ctx.pick(4, 1)));
-    let per = ctx.pick(12, 600);
+    let per = ctx.pick(40, 1200);
     let mut jobs: Vec<(usize, u64)> = vec![];
     for si in 0..suites.len() {
         for k in 0..per {
